@@ -49,9 +49,24 @@ type c52RuleSpec struct {
 }
 
 type c52Case struct {
-	Rules []c52RuleSpec `json:"rules"`
-	Req   reqSpec       `json:"req"`
-	Resp  []hdr         `json:"resp"`
+	// reload history through the module's reload handler: an optional earlier rule file
+	// (the same rules for the products in PrevProducts), then the current one, which
+	// holds Rules for RuleProduct only ("" = "p"). The request is routed to ReqProduct
+	// ("" = "p"). Only the current file counts: a product it does not name has no rule.
+	Prev         []c52RuleSpec `json:"prev,omitempty"`
+	PrevProducts []string      `json:"prev_products,omitempty"`
+	RuleProduct  string        `json:"rule_product,omitempty"`
+	ReqProduct   string        `json:"req_product,omitempty"`
+	Rules        []c52RuleSpec `json:"rules"`
+	Req          reqSpec       `json:"req"`
+	Resp         []hdr         `json:"resp"`
+}
+
+func orP(s string) string {
+	if s == "" {
+		return "p"
+	}
+	return s
 }
 
 var (
@@ -68,8 +83,8 @@ func c52Setup() (*modHost, error) {
 	return c52H, c52Err
 }
 
-func c52RuleFile(rules []c52RuleSpec) string {
-	var rs []map[string]any
+func c52RuleFile(rules []c52RuleSpec, products ...string) string {
+	rs := []map[string]any{}
 	for _, r := range rules {
 		cond := "default_t()"
 		if r.PathPrefix != "" {
@@ -90,7 +105,11 @@ func c52RuleFile(rules []c52RuleSpec) string {
 		}
 		rs = append(rs, m)
 	}
-	b, _ := json.Marshal(map[string]any{"Version": "c52", "Config": map[string]any{"p": rs}})
+	cfg := map[string]any{}
+	for _, p := range products {
+		cfg[p] = rs
+	}
+	b, _ := json.Marshal(map[string]any{"Version": "c52", "Config": cfg})
 	return string(b)
 }
 
@@ -156,14 +175,28 @@ func c52Check(tb ev.TB, rec *ev.Rec, c *c52Case) {
 	nt := false
 	defer func() { rec.Case(string(fpb), nt, uniq(classes)...) }()
 
-	if err := h.reload(c52RuleFile(c.Rules)); err != nil {
+	if len(c.PrevProducts) > 0 {
+		classes = append(classes, "reload-history")
+		if err := h.reload(c52RuleFile(c.Prev, c.PrevProducts...)); err != nil {
+			if _, ok := err.(harnessErr); ok || strings.HasPrefix(err.Error(), "harness:") {
+				tb.Fatalf("harness: %v", err)
+			}
+			rec.Fail(tb, "load/valid-rule-rejected", c, "documented cors rule (earlier file) rejected: %v", err)
+			return
+		}
+	}
+	if err := h.reload(c52RuleFile(c.Rules, orP(c.RuleProduct))); err != nil {
 		if _, ok := err.(harnessErr); ok || strings.HasPrefix(err.Error(), "harness:") {
 			tb.Fatalf("harness: %v", err)
 		}
 		rec.Fail(tb, "load/valid-rule-rejected", c, "documented cors rule rejected: %v", err)
 		return
 	}
-	req, err := buildReq(&c.Req, "p")
+	productHasRules := orP(c.RuleProduct) == orP(c.ReqProduct)
+	if !productHasRules {
+		classes = append(classes, "product-not-in-current-file")
+	}
+	req, err := buildReq(&c.Req, orP(c.ReqProduct))
 	if err != nil {
 		rec.Excluded("bfe-parser-rejects-request")
 		return
@@ -174,6 +207,9 @@ func c52Check(tb ev.TB, rec *ev.Rec, c *c52Case) {
 	acrm := firstVal(c.Req.Headers, "Access-Control-Request-Method")
 	var rule *c52RuleSpec
 	for i := range c.Rules {
+		if !productHasRules {
+			break // the current rule file has no rules for the request's product
+		}
 		if c.Rules[i].PathPrefix == "" || strings.HasPrefix(path, c.Rules[i].PathPrefix) {
 			rule = &c.Rules[i]
 			break
@@ -281,7 +317,11 @@ func c52Check(tb ev.TB, rec *ev.Rec, c *c52Case) {
 		// nothing may be added; the response is as the backend (or bfe's bare preflight answer) made it
 		for _, n := range acaNames {
 			if !eqStrings(before[n], after[n]) {
-				rec.Fail(tb, "aca-added-for-disallowed-origin", c, "origin %q is not allowed but %s changed from %q to %q", origin, n, before[n], after[n])
+				key := "aca-added-for-disallowed-origin"
+				if !productHasRules && len(c.PrevProducts) > 0 {
+					key = "aca-from-rule-removed-by-reload"
+				}
+				rec.Fail(tb, key, c, "origin %q is not allowed by the current rules of product %q but %s changed from %q to %q", origin, orP(c.ReqProduct), n, before[n], after[n])
 				return
 			}
 		}
@@ -504,6 +544,17 @@ func c52GenCase(rt *rapid.T) *c52Case {
 	for _, v := range rapid.SampledFrom(c52Varys).Draw(rt, "vary") {
 		c.Resp = append(c.Resp, hdr{rapid.SampledFrom([]string{"Vary", "vary"}).Draw(rt, "vname"), v})
 	}
+	if rapid.IntRange(0, 9).Draw(rt, "history") < 4 {
+		// an earlier rule file was loaded before the current one (hot reload)
+		c.PrevProducts = rapid.SampledFrom([][]string{{"p"}, {"q"}, {"p", "q"}, {"p", "q", "r"}}).Draw(rt, "prevproducts")
+		if rapid.Bool().Draw(rt, "prevsame") {
+			c.Prev = c.Rules
+		} else {
+			c.Prev = []c52RuleSpec{{Origins: []string{"%origin"}, Credentials: true, Expose: []string{"X-Old"}}}
+		}
+		c.RuleProduct = rapid.SampledFrom([]string{"p", "q"}).Draw(rt, "ruleproduct")
+		c.ReqProduct = rapid.SampledFrom([]string{"p", "q"}).Draw(rt, "reqproduct")
+	}
 	if rapid.IntRange(0, 11).Draw(rt, "backendaca") == 0 {
 		c.Resp = append(c.Resp, hdr{"Access-Control-Allow-Origin", "https://backend-choice.example"})
 	}
@@ -537,6 +588,22 @@ func TestC52(t *testing.T) {
 					}
 					c52Check(t, rec, c)
 				}
+			}
+		}
+	}
+	// reload histories: rules for {p,q} loaded, then a file that names only one product;
+	// requests (simple and preflight) to the product that is gone and to the one that stays
+	for _, keep := range []string{"p", "q"} {
+		for _, to := range []string{"p", "q"} {
+			for _, m := range []string{"GET", "OPTIONS"} {
+				c := &c52Case{Prev: []c52RuleSpec{docRule}, PrevProducts: []string{"p", "q"}, RuleProduct: keep, ReqProduct: to,
+					Rules: []c52RuleSpec{listRule},
+					Req:   reqSpec{Method: m, Target: "/", Host: "example.org", Headers: []hdr{{"Origin", "https://example.org"}}},
+					Resp:  []hdr{{"Content-Type", "text/plain"}, {"Vary", "Accept-Encoding"}}}
+				if m == "OPTIONS" {
+					c.Req.Headers = append(c.Req.Headers, hdr{"Access-Control-Request-Method", "PUT"})
+				}
+				c52Check(t, rec, c)
 			}
 		}
 	}
